@@ -52,12 +52,13 @@ def _split(t):
 
 def obs_record(a, n, refs=("a", "b")):
     """Battery answers -> the obs record of AccelTrace."""
-    o = {"has": [], "par": [], "depth": [], "anc": [], "mb": [], "rc": [], "ro": [], "miss": []}
+    o = {"has": [], "par": [], "walk": [], "depth": [], "anc": [], "mb": [], "rc": [], "ro": [], "miss": []}
     for i in range(1, n + 1):
         hs = [a["has"][f"{i}{k}"] for k in "ctb"]
         gs = [a["get"][f"{i}{k}"] for k in "ctb"]
         o["has"].append(1 if hs == [True] * 3 and gs == ["ok"] * 3 else 0 if hs == [False] * 3 and gs == ["KeyError"] * 3 else -1)
         o["par"].append(_set_or(a["par"][str(i)]))
+        o["walk"].append(_set_or(a["walk"][str(i)]))
         d = a["depth"][str(i)]
         o["depth"].append(d if isinstance(d, int) else -1)
     for k, v in a["anc"].items():
@@ -107,7 +108,7 @@ def obs_record(a, n, refs=("a", "b")):
 def st_record(real, N):
     par = [sorted(real["par"].get(i, real["par"].get(str(i), []))) for i in range(1, real["n"] + 1)]
     return {"n": real["n"], "par": par, "loose": real["loose"], "packs": real["packs"],
-            "lref": real["lref"], "pref": real["pref"], "cg": real["cg"], "midx": real["midx"],
+            "lref": real["lref"], "pref": real["pref"], "graft": real["graft"], "shal": real["shal"], "cg": real["cg"], "midx": real["midx"],
             "bmp": [{"at": b["at"], "for": b["for"]} for b in real["bmp"]]}
 
 
